@@ -97,6 +97,34 @@ def mat_residual(R):
     return r
 
 
+def mass_band_sweep(run, fns):
+    """mr_ref_traj takes the MASS as an input: thrust = m |g e3 - a| and specific force |g e3 - a| cross the 1e-6 guard at
+    different accelerations unless m = 1.  Setpoints.tla ("zero"/"tiny": a finite proper rotation, nothing else; above the
+    fallback band z_B = F/|F|) holds for every mass: sweep the specific force through 1e-8 .. 1e-2 for light and heavy vehicles."""
+    K = fns.k_fl
+    g = K["g"]; J = K["J"]
+    dirs = [np.array(d, float) / np.linalg.norm(d) for d in ((0.3, -0.5, 0.8), (0, 0, 1), (1, 0, 0), (0, 0, -1), (-0.6, 0.0, 0.8))]
+    cases = [(m, f, u, psi) for m in (0.027, 0.3, 1.0, 5.0, 40.0) for f in (1e-8, 1e-7, 4e-7, 9e-7, 2e-6, 6e-6, 2e-5, 1e-4, 1e-3, 1e-2)
+             for u in dirs for psi in (0.0, 2.0)]
+    n = len(cases)
+    psi = np.array([c[3] for c in cases])
+    a = np.array([np.array([0.0, 0.0, g]) - c[1] * c[2] for c in cases]).T
+    z1 = np.zeros((1, n)); z3 = np.zeros((3, n)); v = np.repeat(np.array([[0.3], [-1.0], [0.5]]), n, axis=1)
+    m = np.array([[c[0] for c in cases]])
+    cols = [psi[None], z1, z1, v, a, z3, z3, m, np.full((1, n), g), np.full((1, n), J[0, 0]), np.full((1, n), J[1, 1]), np.full((1, n), J[2, 2]), np.full((1, n), J[0, 2])]
+    o = batch_call(fns.mr, cols)
+    R = mat_from_cols(o[1])
+    res = mat_residual(R)
+    run.count("evaluations", n)
+    run.count("mass_band_points", n)
+    for k, (mk, f, u, ps) in enumerate(cases):
+        data = {"mass": mk, "specific_force": f, "direction": u.tolist(), "psi": ps, "a_e": a[:, k].tolist(), "C": R[:, :, k].tolist()}
+        if not (res[k] <= 1e-9):
+            run.violation("mr_ref_traj/orthonormal/mass_band", "returned attitude matrix is not orthonormal with det +1 (near free fall, mass != 1)", data)
+        elif min(f, mk * f) >= 1e-5 and np.max(np.abs(R[:, 2, k] - u)) > 1e-6:
+            run.violation("mr_ref_traj/thrust_axis/mass_band", "body z axis is not the normalised demanded force (small but non-degenerate thrust, mass != 1)", data)
+
+
 def yaw_quat(psi, k):
     """camera orientation with heading psi; odd k: additional camera pitch/roll (the heading is
     the B321 yaw angle of the quaternion whatever the other two angles are)"""
@@ -642,6 +670,7 @@ def main():
         if len(tvs) % 1499 == 1:
             run.sample({k: tv[k] for k in tv if k in ("op", "T", "den", "hd", "cell", "sat", "co", "t", "U", "Ud", "pnum", "qnum", "q")}, limit=6)
     replay(run, fns, tvs, cover, stats)
+    mass_band_sweep(run, fns)
     missing = {fn: sorted(c - {cell for (f, cell) in cover if f == fn}) for fn, c in NEED.items()}
     missing = {fn: c for fn, c in missing.items() if c}
     if missing:
